@@ -221,6 +221,9 @@ func c14sites(c *Ctx) {
 		}
 	}
 	c.R.Max("matrix_size", int64(len(cells)))
+	if c.To > len(cells) {
+		c.To = len(cells)
+	}
 	c.Each(func(idx int, r *gen.R) {
 		if idx >= len(cells) {
 			return
@@ -319,7 +322,7 @@ func c14sites(c *Ctx) {
 		}
 		c.R.Add("attributions_confirmed", 1)
 		c.R.Distinct("entry_points", e.name)
-		c.R.NonTrivial(fmt.Sprint(desc))
+		c.R.NonTrivial(fmt.Sprint(desc), c.X("build", ""), c.Testing)
 		if c.R.WantSample() && cl.skip > 0 {
 			c.R.Sample(idx, desc, map[string]any{"reported": d.Caller, "expected": want})
 		}
